@@ -53,7 +53,14 @@ type Ctx struct {
 	nontrivial bool
 	classes    map[string]int
 	Replay     bool // true when running a replay file
+	excluded   string
 }
+
+// Exclude marks the case as lying in the trigger region of a known finding
+// (tag): the executor stops the case, the kit counts it and does not treat it
+// as explored.
+func (c *Ctx) Exclude(tag string) { c.excluded = tag }
+func (c *Ctx) Excluded() bool     { return c.excluded != "" }
 
 func (c *Ctx) NonTrivial() { c.nontrivial = true }
 func (c *Ctx) Class(name string) {
@@ -237,6 +244,13 @@ func Run[C any](t *testing.T, sp Spec[C]) {
 		}
 		x := &Ctx{}
 		f := sp.Exec(c, x)
+		if x.excluded != "" {
+			if failed == nil {
+				fr.Evaluations++
+				fr.ExcludedKnown["avoid:"+x.excluded]++
+			}
+			return
+		}
 		if failed == nil {
 			fr.Evaluations++
 			for k, v := range x.classes {
